@@ -58,8 +58,8 @@ class Atoms:
     def __init__(self):
         self.hi = {}
         self.names = {}
-
         self.by_key = {}
+        self.ctx = {}  # per-path refinements of the upper bounds (set by the interpreter for the state it works on)
 
     def new(self, name, hi=None, key=None):
         """one atom per (program site, role, bound): re-evaluating a site yields the same symbol"""
@@ -73,9 +73,11 @@ class Atoms:
             self.by_key[k] = i
         return i
 
-
-def lin(const=0, **kw):
-    return (const, ())
+    def get_hi(self, a):
+        h, r = self.hi[a], self.ctx.get(a)
+        if r is None:
+            return h
+        return r if h is None else min(h, r)
 
 
 def lin_atom(a):
@@ -89,17 +91,14 @@ def lin_add(x, y, sign=1):
     return (x[0] + sign * y[0], tuple(sorted((a, c) for a, c in d.items() if c)))
 
 
-def lin_scale(x, k):
-    return (x[0] * k, tuple((a, c * k) for a, c in x[1] if c * k))
-
-
 def lin_max(x, atoms):
     v = x[0]
     for a, c in x[1]:
         if c > 0:
-            if atoms.hi[a] is None:
+            h = atoms.get_hi(a)
+            if h is None:
                 return None
-            v += c * atoms.hi[a]
+            v += c * h
     return v
 
 
@@ -107,9 +106,10 @@ def lin_min(x, atoms):
     v = x[0]
     for a, c in x[1]:
         if c < 0:
-            if atoms.hi[a] is None:
+            h = atoms.get_hi(a)
+            if h is None:
                 return None  # -inf
-            v += c * atoms.hi[a]
+            v += c * h
     return v
 
 
@@ -161,8 +161,9 @@ class S:
     last: CharSet = FULL
     nonempty: bool = False
     ub: frozenset | None = None       # len <= max(ub)
-    exact: frozenset | None = None    # len == max(exact)   (a single form unless built with max())
+    exact: frozenset | None = None    # len == max(exact)
     tag: str | None = None            # 'param0' for the untouched input path
+    fresh: object = None              # directory value d such that os.path.join(d, <this value>) was tested not to be an existing file
     hist: tuple = field(default=(), compare=False)
 
 
@@ -188,13 +189,28 @@ class JoinV:
     """os.path.join(d, name)"""
     d: object
     name: object
-    dvar: str | None
-    nvar: str | None
+
+
+@dataclass(frozen=True)
+class Seq:
+    """an iterable every element of which is one of `elems`; infinite = never exhausted (itertools.count)"""
+    elems: tuple
+    infinite: bool = False
+
+
+@dataclass(frozen=True)
+class Fork:
+    """alternative results of one evaluation (several returns of a helper, found/not found of a partition, next(...))"""
+    alts: tuple
 
 
 @dataclass(frozen=True)
 class Top:
     what: str = "?"
+
+
+ONE = frozenset([(1, ())])
+ZERO = frozenset([(0, ())])
 
 
 def const_str(s):
@@ -214,6 +230,8 @@ def concat(a: S, b: S):
     exact = mx_add(a.exact, b.exact) if a.exact is not None and b.exact is not None else None
     if ub is not None and len(ub) > 16:
         ub = None
+    if exact is not None and len(exact) > 4:
+        exact = None
     return S(may, last, a.nonempty or b.nonempty, ub, exact)
 
 
@@ -221,17 +239,15 @@ def concat(a: S, b: S):
 class State:
     env: dict
     falsy: frozenset = frozenset()          # names known to be falsy on this path
-    notexist: frozenset = frozenset()       # (dvar, nvar): join(dvar, nvar) tested not to be an existing file
-    killed_by: object = None                # statement that invalidated the last uniqueness test
+    bounds: tuple = ()                      # ((atom, hi), ...) refinements valid on this path
 
     def key(self):
-        return (tuple(sorted(self.env.items(), key=lambda kv: kv[0])), self.falsy, self.notexist)
+        return (tuple(sorted(self.env.items(), key=lambda kv: kv[0])), self.falsy, self.bounds)
 
     def copy(self):
-        return State(dict(self.env), self.falsy, self.notexist, self.killed_by)
+        return State(dict(self.env), self.falsy, self.bounds)
 
 
-# ---------------------------------------------------------------------------
 class Opaque(Exception):
     """the value of an unknown call is used as (part of) a string: the whole expression is unknown"""
 
@@ -239,16 +255,29 @@ class Opaque(Exception):
         self.top = top
 
 
+class Frame:
+    def __init__(self, fnode):
+        self.fnode = fnode
+        self.returns = []   # (state, node, value)
+        self.loops = []     # [{'breaks': [...], 'continues': [...]}]
+
+
+INFINITE_ITER = ("itertools.count", "itertools.repeat", "itertools.cycle")
+PROBES = ("os.path.isfile", "os.path.exists", "os.path.lexists")
+
+
+# ---------------------------------------------------------------------------
 class Interp:
-    def __init__(self, fnode, sink, helpers=None):
-        self.helpers = helpers or {}
-        self.inlining = 0
-        self.fn = fnode
+    def __init__(self, fnode, sink, module=None):
+        self.module = module or {}
+        self.funcs = self.module.get("funcs", {})
+        self.consts = self.module.get("consts", {})
+        self.root = fnode
         self.sink = sink
         self.atoms = Atoms()
-        self.returns = []  # (state, node, value)
+        self.frames = [Frame(fnode)]
         self.in_loop = 0
-        self.stats = dict(char_cleaners=0, tail_cleaners=0, cuts=0, refinements=0, uniq_loops=0, guards=0, concat=0, splits=0)
+        self.stats = dict(char_cleaners=0, tail_cleaners=0, cuts=0, refinements=0, uniq_loops=0, guards=0, concat=0, splits=0, helpers=0)
         self.seen_sites = {k: set() for k in self.stats}
         self.notes = []
         a = fnode.args
@@ -260,32 +289,70 @@ class Interp:
         for need in ("unique", "replace"):
             if need not in allp:
                 _err("parameter %r vanished" % need)
-        # default of `replace` must itself satisfy the single-character assumption
         defaults = dict(zip(reversed(self.params), reversed(a.defaults)))
         d = defaults.get("replace")
         if d is not None and not (isinstance(d, ast.Constant) and isinstance(d.value, str) and len(d.value) == 1):
             _err("default of `replace` is not a one-character literal")
+
+    @property
+    def fn(self):
+        return self.frames[-1].fnode
 
     def site(self, kind, node):
         if id(node) not in self.seen_sites[kind]:
             self.seen_sites[kind].add(id(node))
             self.stats[kind] += 1
 
-    # ---- initial state ---------------------------------------------------
     def initial(self):
         env = {}
-        one = frozenset([(1, ())])
-        for p in self.params + [x.arg for x in self.fn.args.kwonlyargs]:
+        for p in self.params + [x.arg for x in self.root.args.kwonlyargs]:
             if p == self.p0:
                 env[p] = S(tag="param0")
             elif p == "replace":
-                env[p] = S(FULL, FULL, True, one, one)
+                env[p] = S(FULL, FULL, True, ONE, ONE)
             else:
                 env[p] = Top("param " + p)
         return State(env)
 
+    # ---- joins ---------------------------------------------------------------
+    def join(self, vals):
+        vals = list(dict.fromkeys(vals))
+        if len(vals) == 1:
+            return vals[0]
+        if all(isinstance(v, S) for v in vals):
+            may, last = CharSet.EMPTY, CharSet.EMPTY
+            ub = frozenset()
+            for v in vals:
+                may, last = may | v.may, last | v.last
+                ub = None if (ub is None or v.ub is None) else ub | v.ub
+            if ub is not None and len(ub) > 16:
+                ub = None
+            fresh = vals[0].fresh if all(v.fresh == vals[0].fresh for v in vals) else None
+            # provenance of the alternative that violates most (it is the one a finding will be about)
+            worst = max(vals, key=lambda v: (sum(1 for ok in self.facts(v).values() if not ok), len(v.hist)))
+            return S(may, last, all(v.nonempty for v in vals), ub, None, None, fresh, worst.hist)
+        if all(isinstance(v, Seq) for v in vals):
+            el = []
+            for v in vals:
+                el += [x for x in v.elems if x not in el]
+            return Seq(tuple(el), all(v.infinite for v in vals))
+        if all(isinstance(v, I) for v in vals):
+            return I()
+        if all(isinstance(v, Tup) and len(v.items) == len(vals[0].items) for v in vals):
+            return Tup(tuple(self.join([v.items[i] for v in vals]) for i in range(len(vals[0].items))))
+        for v in vals:
+            if isinstance(v, Top) and v.what.startswith("call "):
+                return v
+        return Top("join")
+
+    def collapse(self, v):
+        return self.join(list(v.alts)) if isinstance(v, Fork) else v
+
     # ---- expressions -----------------------------------------------------
     def ev(self, e, st, stmt):
+        return self.collapse(self.evf(e, st, stmt))
+
+    def evf(self, e, st, stmt):
         try:
             return self.ev1(e, st, stmt)
         except Opaque as o:
@@ -301,32 +368,38 @@ class Interp:
         if isinstance(e, ast.Name):
             if e.id in st.env:
                 return st.env[e.id]
+            c = self.consts.get(e.id)
+            if isinstance(c, ast.Constant) and (isinstance(c.value, str) or type(c.value) is int):
+                return self.ev1(c, st, stmt)
             return Top("global " + e.id)
         if isinstance(e, ast.JoinedStr):
             acc = const_str("")
+            parts = []
             for v in e.values:
                 if isinstance(v, ast.Constant):
                     acc = concat(acc, const_str(v.value))
                 elif isinstance(v, ast.FormattedValue) and v.format_spec is None and v.conversion == -1:
-                    acc = concat(acc, self.as_str(self.ev(v.value, st, stmt)))
+                    pv = self.ev(v.value, st, stmt)
+                    parts.append(pv)
+                    acc = concat(acc, self.as_str(pv))
                 else:
                     acc = concat(acc, S())
-            return self.derived(acc, stmt, [], None)
+            self.site("concat", e)
+            return self.derived(acc, stmt, parts, None, self.concat_kind(parts))
         if isinstance(e, ast.BinOp):
             l, r = self.ev(e.left, st, stmt), self.ev(e.right, st, stmt)
             if isinstance(e.op, ast.Add):
                 if isinstance(l, S) and isinstance(r, S):
                     self.site("concat", e)
-                    return self.derived(concat(l, r), stmt, [l, r], None)
-                if isinstance(l, I) and isinstance(r, I) and l.val is not None and r.val is not None:
-                    return I(mx_add(l.val, r.val))
+                    return self.derived(concat(l, r), stmt, [l, r], None, "concat")
+                if isinstance(l, I) and isinstance(r, I):
+                    return I(mx_add(l.val, r.val)) if l.val is not None and r.val is not None else I()
                 if isinstance(l, S) or isinstance(r, S):
-                    return self.derived(concat(self.as_str(l, strict=False), self.as_str(r, strict=False)), stmt, [l, r], None)
-                return I()
+                    return self.derived(concat(self.as_str(l), self.as_str(r)), stmt, [l, r], None, self.concat_kind([l, r]))
+                return I() if (isinstance(l, I) or isinstance(r, I)) else Top("binop")
             if isinstance(e.op, ast.Sub) and isinstance(l, I) and isinstance(r, I):
                 if l.val is not None and r.val is not None:
-                    v = mx_add(l.val, r.val, -1)
-                    return I(v)
+                    return I(mx_add(l.val, r.val, -1))
                 return I()
             if isinstance(e.op, ast.Mod) and isinstance(l, S) and isinstance(e.left, ast.Constant):
                 return self.percent(e.left.value, e.right, st, stmt)
@@ -334,24 +407,25 @@ class Interp:
                 return I()
             return Top("binop")
         if isinstance(e, ast.IfExp):
-            a, b = self.ev(e.body, st, stmt), self.ev(e.orelse, st, stmt)
-            if isinstance(a, S) and isinstance(b, S):
-                ub = (a.ub | b.ub) if a.ub is not None and b.ub is not None else None
-                return self.derived(S(a.may | b.may, a.last | b.last, a.nonempty and b.nonempty, ub, None), stmt, [a, b], None)
-            return Top("ifexp")
+            return self.join([self.ev(e.body, st, stmt), self.ev(e.orelse, st, stmt)])
         if isinstance(e, ast.Subscript):
             return self.subscript(e, st, stmt)
         if isinstance(e, ast.Call):
             return self.call(e, st, stmt)
         if isinstance(e, ast.Tuple):
             return Tup(tuple(self.ev(x, st, stmt) for x in e.elts))
+        if isinstance(e, ast.List):
+            return Seq(tuple(self.ev(x, st, stmt) for x in e.elts))
+        if isinstance(e, (ast.GeneratorExp, ast.ListComp)):
+            return self.comprehension(e, st, stmt)
         if isinstance(e, ast.Attribute):
             return Top(dotted(e) or "attr")
         if isinstance(e, (ast.Compare, ast.BoolOp, ast.UnaryOp)):
             return Top("bool")
         return Top(type(e).__name__)
 
-    def as_str(self, v, strict=True):
+    def as_str(self, v):
+        v = self.collapse(v)
         if isinstance(v, S):
             return v
         if isinstance(v, I):
@@ -360,7 +434,12 @@ class Interp:
             raise Opaque(v)
         return S()
 
-    def derived(self, new: S, stmt, inputs, attempt):
+    @staticmethod
+    def concat_kind(parts):
+        # a decimal rendering of an int inside the concatenation = a numbering suffix
+        return "append-counter" if any(isinstance(p, I) for p in parts) else "concat"
+
+    def derived(self, new: S, stmt, inputs, attempt, kind="other"):
         """attach provenance: history of the primary string input + this step"""
         hist = ()
         for i in inputs:
@@ -370,15 +449,17 @@ class Interp:
         att = frozenset([attempt]) if attempt else frozenset()
         if hist and hist[-1][0] is stmt:
             att = att | hist[-1][2]
+            if kind in ("other", "concat") and hist[-1][4] not in ("other", "concat"):
+                kind = hist[-1][4]
             hist = hist[:-1]
-        return dc_replace(new, hist=hist + ((stmt, self.facts(new), att),))
+        return dc_replace(new, fresh=None, hist=hist + ((stmt, self.facts(new), att, self.fn, kind),))
 
     def facts(self, v: S):
-        ln = v.ub is not None and mx_max(v.ub, self.atoms) is not None and mx_max(v.ub, self.atoms) <= MAXLEN
-        return dict(chars=not (v.may & RESERVED), tail=not (v.last & TAIL_BAD), len=ln)
+        m = mx_max(v.ub, self.atoms) if v.ub is not None else None
+        return dict(chars=not (v.may & RESERVED), tail=not (v.last & TAIL_BAD), len=m is not None and m <= MAXLEN)
 
     # ---- string formatting ---------------------------------------------------
-    def format_pieces(self, fmt, args, kwargs, stmt):
+    def format_pieces(self, fmt, args, kwargs):
         import string
         acc = const_str("")
         auto = 0
@@ -395,23 +476,19 @@ class Interp:
                 acc = concat(acc, S())
                 continue
             if fieldname == "":
-                idx = auto
+                v = args[auto] if auto < len(args) else Top()
                 auto += 1
-                v = args[idx] if idx < len(args) else Top()
             elif fieldname.isdigit():
                 v = args[int(fieldname)] if int(fieldname) < len(args) else Top()
-            elif fieldname in kwargs:
-                v = kwargs[fieldname]
             else:
-                v = Top()
+                v = kwargs.get(fieldname, Top())
             acc = concat(acc, self.as_str(v))
         return acc
 
     def percent(self, fmt, right, st, stmt):
         vals = [self.ev(x, st, stmt) for x in right.elts] if isinstance(right, ast.Tuple) else [self.ev(right, st, stmt)]
         acc = const_str("")
-        i = 0
-        k = 0
+        i = k = 0
         while i < len(fmt):
             if fmt[i] == "%" and i + 1 < len(fmt):
                 c = fmt[i + 1]
@@ -426,7 +503,7 @@ class Interp:
             else:
                 acc = concat(acc, const_str(fmt[i]))
                 i += 1
-        return self.derived(acc, stmt, vals, None)
+        return self.derived(acc, stmt, vals, None, self.concat_kind(vals))
 
     # ---- subscripts ---------------------------------------------------------
     def fresh_exact(self, name, ub, site=None):
@@ -442,13 +519,14 @@ class Interp:
             return x if isinstance(x, Top) and x.what.startswith("call ") else Top("subscript")
         sl = e.slice
         if not isinstance(sl, ast.Slice):
-            one = frozenset([(1, ())])
-            return self.derived(S(x.may, x.may, True, one, one), stmt, [x], None)
+            return self.derived(S(x.may, x.may, True, ONE, ONE), stmt, [x], None)
         if sl.step is not None:
             return self.derived(S(x.may, x.may, False, x.ub, None), stmt, [x], "len")
         if sl.upper is None:
             # suffix x[k:]: the last character is kept when anything is left
-            return self.derived(S(x.may, x.last, False, x.ub, None), stmt, [x], None)
+            new = S(x.may, x.last, False, x.ub, None)
+            new = dc_replace(new, exact=self.fresh_exact("len(%s)" % norm(e)[:30], x.ub, e))
+            return self.derived(new, stmt, [x], None)
         self.site("cuts", e)
         n = self.ev(sl.upper, st, stmt)
         ub = x.ub
@@ -466,22 +544,32 @@ class Interp:
                 why = "the bound %s can be negative, so the slice only removes characters from the end and guarantees no length" % mx_show(n.val, self.atoms)
         else:
             why = "the bound %s is not a known non-negative quantity" % norm(sl.upper)
-        lower_free = sl.lower is None or (isinstance(sl.lower, ast.Constant) and sl.lower.value in (0, None))
         new = S(x.may, x.may, False, ub, None)
         new = dc_replace(new, exact=self.fresh_exact("len(%s)" % norm(e)[:30], ub, e))
-        out = self.derived(new, stmt, [x], "len")
+        out = self.derived(new, stmt, [x], "len", "cut")
         if why:
             self.notes.append((stmt, why))
         return out
 
-    # ---- calls ---------------------------------------------------------------
-    def regex_of(self, parg, st):
-        if isinstance(parg, ast.Name):
+    # ---- regexes ---------------------------------------------------------------
+    def const_expr(self, e):
+        """follow a name to its single defining expression (local of the current function, module constant)"""
+        for _ in range(4):
+            if not isinstance(e, ast.Name):
+                break
             v = None
             for n in walk_no_nested(self.fn):
-                if isinstance(n, ast.Assign) and len(n.targets) == 1 and isinstance(n.targets[0], ast.Name) and n.targets[0].id == parg.id:
+                if isinstance(n, ast.Assign) and len(n.targets) == 1 and isinstance(n.targets[0], ast.Name) and n.targets[0].id == e.id:
                     v = n.value if v is None else False
-            parg = v if v not in (None, False) else parg
+            if v is None and e.id in self.consts:
+                v = self.consts[e.id]
+            if v in (None, False):
+                break
+            e = v
+        return e
+
+    def regex_of(self, parg):
+        parg = self.const_expr(parg)
         if isinstance(parg, ast.Constant) and isinstance(parg.value, str):
             try:
                 return RL.Regex(parg.value)
@@ -489,6 +577,22 @@ class Interp:
                 return None
         return None
 
+    def regex_call(self, e):
+        """re.<op>(P, a, b..) or <compiled>.<op>(a, b..) -> (Regex|None, op, [arg exprs]) ; None if not a regex call"""
+        if not (isinstance(e, ast.Call) and isinstance(e.func, ast.Attribute)) or e.func.attr not in ("sub", "match", "search", "fullmatch"):
+            return None
+        base = e.func.value
+        if isinstance(base, ast.Name) and base.id == "re":
+            if not e.args:
+                return None
+            return self.regex_of(e.args[0]), e.func.attr, list(e.args[1:]), bool(e.keywords)
+        c = self.const_expr(base)
+        if isinstance(c, ast.Call) and dotted(c.func) == "re.compile" and c.args:
+            plain = len(c.args) == 1 and not c.keywords
+            return (self.regex_of(c.args[0]) if plain else None), e.func.attr, list(e.args), bool(e.keywords)
+        return None
+
+    # ---- calls ---------------------------------------------------------------
     def call(self, e, st, stmt):
         d = dotted(e.func)
         args = e.args
@@ -505,8 +609,12 @@ class Interp:
             if d == "max" and isinstance(a, I) and isinstance(b, I) and a.val is not None and b.val is not None:
                 return I(a.val | b.val)
             return I()
-        if d == "re.sub" and len(args) >= 3:
-            return self.re_sub(e, st, stmt)
+        rc = self.regex_call(e)
+        if rc is not None:
+            rx, rop, rargs, haskw = rc
+            if rop == "sub" and len(rargs) >= 2:
+                return self.re_sub(e, rx, rargs, haskw, st, stmt)
+            return Top("match")
         if d == "os.path.split" and len(args) == 1:
             v = self.ev(args[0], st, stmt)
             if isinstance(v, S) and v.tag == "param0":
@@ -522,13 +630,37 @@ class Interp:
                 return self.derived(S(v.may - CharSet.of("/"), v.last - CharSet.of("/"), False, v.ub, None), stmt, [v], None)
             return S()
         if d == "os.path.join" and len(args) == 2:
-            a, b = self.ev(args[0], st, stmt), self.ev(args[1], st, stmt)
-            return JoinV(a, b, args[0].id if isinstance(args[0], ast.Name) else None, args[1].id if isinstance(args[1], ast.Name) else None)
+            return JoinV(self.ev(args[0], st, stmt), self.ev(args[1], st, stmt))
         if d == "os.path.splitext" and len(args) == 1:
             v = self.ev(args[0], st, stmt)
             if isinstance(v, S):
                 return self.split_parts(v, CharSet.of("."), stmt, keep_sep_in_last=True)
             return Tup((S(), S()))
+        if d in INFINITE_ITER:
+            return Seq((I(),), True)
+        if d == "range":
+            return Seq((I(),))
+        if d == "itertools.chain":
+            el, inf = [], False
+            for a in args:
+                v = self.ev(a, st, stmt)
+                if isinstance(v, Seq):
+                    el += [x for x in v.elems if x not in el]
+                    inf = inf or v.infinite
+                elif isinstance(v, Tup):
+                    el += [x for x in v.items if x not in el]
+                else:
+                    return v if isinstance(v, Top) and v.what.startswith("call ") else Top("chain")
+            return Seq(tuple(el), inf)
+        if d == "next" and args:
+            v = self.ev(args[0], st, stmt)
+            if isinstance(v, Seq) and v.elems:
+                alts = list(v.elems) + ([self.ev(args[1], st, stmt)] if len(args) > 1 else [])
+                return Fork(tuple(alts)) if len(alts) > 1 else alts[0]
+            return v if isinstance(v, Top) and v.what.startswith("call ") else Top("next")
+        if d in ("list", "tuple", "iter") and len(args) == 1:
+            v = self.ev(args[0], st, stmt)
+            return v if isinstance(v, (Seq, Tup)) else (v if isinstance(v, Top) and v.what.startswith("call ") else Top(d))
         if isinstance(e.func, ast.Attribute):
             recv = e.func.value
             meth = e.func.attr
@@ -536,46 +668,121 @@ class Interp:
                 vals = [self.ev(a, st, stmt) for a in args]
                 kw = {k.arg: self.ev(k.value, st, stmt) for k in e.keywords if k.arg}
                 self.site("concat", e)
-                return self.derived(self.format_pieces(recv.value, vals, kw, stmt), stmt, vals + list(kw.values()), None)
+                allv = vals + list(kw.values())
+                return self.derived(self.format_pieces(recv.value, vals, kw), stmt, allv, None, self.concat_kind(allv))
             x = self.ev(recv, st, stmt)
             if isinstance(x, S):
-                if meth in ("rsplit", "split") and len(args) == 2 and isinstance(args[0], ast.Constant) and isinstance(args[0].value, str) \
-                        and args[0].value and isinstance(args[1], ast.Constant) and args[1].value == 1:
-                    if len(args[0].value) == 1:
-                        return self.split_parts(x, CharSet.of(args[0].value), stmt, right=(meth == "rsplit"))
-                    return Tup((self.sub_any(x, stmt), self.sub_any(x, stmt)))
-                if meth in ("rstrip", "strip") and len(args) <= 1:
-                    if not args:
-                        cs = RL.category_set("CATEGORY_SPACE", False)
-                    elif isinstance(args[0], ast.Constant) and isinstance(args[0].value, str):
-                        cs = CharSet.of(args[0].value)
-                    else:
-                        return self.sub_any(x, stmt)
-                    self.site("tail_cleaners", e)
-                    return self.derived(S(x.may, x.may - cs, False, x.ub, None), stmt, [x], "tail")
-                if meth == "replace" and len(args) == 2 and all(isinstance(a, ast.Constant) and isinstance(a.value, str) for a in args) and len(args[0].value) == 1:
-                    old, new = CharSet.of(args[0].value), const_str(args[1].value)
-                    return self.char_sub(x, old, new, stmt)
-                if meth in ("lower", "upper", "casefold", "title", "swapcase", "capitalize"):
-                    return self.derived(S(FULL if x.may != CharSet.EMPTY else x.may, FULL, x.nonempty, None, None), stmt, [x], None)
-                if meth in ("lstrip",):
-                    return self.derived(S(x.may, x.last, False, x.ub, None), stmt, [x], None)
-                return self.derived(S(), stmt, [x], None)
-        # a one-expression helper of the same module is evaluated on the abstract arguments
-        h = self.helpers.get(d) if isinstance(e.func, ast.Name) else None
-        if h is not None and self.inlining < 3 and not e.keywords:
-            body = [b for b in h.body if not (isinstance(b, ast.Expr) and isinstance(b.value, ast.Constant))]
-            hp = [a.arg for a in h.args.posonlyargs + h.args.args]
-            if len(body) == 1 and isinstance(body[0], ast.Return) and body[0].value is not None and len(hp) == len(args) \
-                    and not h.args.vararg and not h.args.kwarg and not h.args.kwonlyargs:
-                sub = State({k: self.ev(a, st, stmt) for k, a in zip(hp, args)})
-                self.inlining += 1
-                try:
-                    return self.ev(body[0].value, sub, stmt)
-                finally:
-                    self.inlining -= 1
+                return self.str_method(x, meth, e, st, stmt)
+            if isinstance(x, Top) and x.what.startswith("call "):
+                return x
+        # helper of the same module: interpreted on the abstract arguments (all paths, loops included)
+        if isinstance(e.func, ast.Name) and e.func.id in self.funcs and e.func.id not in st.env:
+            return self.call_function(e, self.funcs[e.func.id], st, stmt)
         # unknown call: value unknown; if it ends up in the returned name the analysis gives up (exit 2)
         return Top("call " + (d or "?"))
+
+    def call_function(self, call, fnode, st, stmt):
+        name = fnode.name
+        if len(self.frames) > 4 or any(f.fnode is fnode for f in self.frames):
+            return Top("call " + name)
+        if any(isinstance(n, (ast.Yield, ast.YieldFrom)) for n in walk_no_nested(fnode)):
+            return Top("call " + name)
+        a = fnode.args
+        params = [x.arg for x in a.posonlyargs + a.args]
+        if a.vararg or a.kwarg or any(isinstance(x, ast.Starred) for x in call.args) or len(call.args) > len(params):
+            return Top("call " + name)
+        env = {}
+        defaults = dict(zip(reversed(params), reversed(a.defaults)))
+        kws = {k.arg: k.value for k in call.keywords if k.arg}
+        for i, p in enumerate(params):
+            if i < len(call.args):
+                env[p] = self.ev(call.args[i], st, stmt)
+            elif p in kws:
+                env[p] = self.ev(kws[p], st, stmt)
+            elif p in defaults:
+                env[p] = self.ev(defaults[p], State({}), stmt)
+            else:
+                return Top("call " + name)
+        self.site("helpers", fnode)
+        fr = Frame(fnode)
+        self.frames.append(fr)
+        saved_loop = self.in_loop
+        self.in_loop = 0
+        try:
+            rest = self.block(fnode.body, [State(env, frozenset(), st.bounds)])
+        finally:
+            self.frames.pop()
+            self.in_loop = saved_loop
+            self.atoms.ctx = dict(st.bounds)
+        vals = [v for _s, _n, v in fr.returns] + [Top("None") for _ in rest]
+        vals = list(dict.fromkeys(vals))
+        if not vals:
+            return Top("None")
+        return vals[0] if len(vals) == 1 else Fork(tuple(vals))
+
+    def comprehension(self, e, st, stmt):
+        if len(e.generators) != 1 or not isinstance(e.generators[0].target, ast.Name):
+            return Top("comprehension")
+        g = e.generators[0]
+        it = self.ev(g.iter, st, stmt)
+        if isinstance(it, Tup):
+            it = Seq(it.items)
+        if not isinstance(it, Seq):
+            return it if isinstance(it, Top) and it.what.startswith("call ") else Top("comprehension")
+        var = g.target.id
+        probe_dir = None
+        for c in g.ifs:
+            p = self.probe_of(c)
+            if p and p[0] == "absent" and isinstance(p[2], ast.Name) and p[2].id == var:
+                sub = st.copy()
+                sub.env[var] = S()
+                probe_dir = self.ev(p[1], sub, stmt)
+        out = []
+        for el in it.elems:
+            sub = st.copy()
+            sub.env[var] = el
+            v = self.ev(e.elt, sub, stmt)
+            if probe_dir is not None and isinstance(v, S) and isinstance(e.elt, ast.Name) and e.elt.id == var:
+                v = dc_replace(v, fresh=probe_dir)
+                self.site("uniq_loops", e)
+            if v not in out:
+                out.append(v)
+        return Seq(tuple(out), it.infinite and not g.ifs)
+
+    def str_method(self, x, meth, e, st, stmt):
+        args = e.args
+        if meth in ("rsplit", "split") and len(args) == 2 and isinstance(args[0], ast.Constant) and isinstance(args[0].value, str) \
+                and args[0].value and isinstance(args[1], ast.Constant) and args[1].value == 1:
+            if len(args[0].value) == 1:
+                return self.split_parts(x, CharSet.of(args[0].value), stmt, right=(meth == "rsplit"))
+            return Tup((self.sub_any(x, stmt), self.sub_any(x, stmt)))
+        if meth in ("rpartition", "partition") and len(args) == 1 and isinstance(args[0], ast.Constant) and isinstance(args[0].value, str) and len(args[0].value) == 1:
+            sep = args[0].value
+            head, tail = self.split_parts(x, CharSet.of(sep), stmt, right=(meth == "rpartition")).items
+            empty = const_str("")
+            found = Tup((head, const_str(sep), tail))
+            notfound = Tup((empty, empty, x)) if meth == "rpartition" else Tup((x, empty, empty))
+            return Fork((found, notfound))
+        if meth in ("rfind", "find", "index", "rindex", "count"):
+            return I()
+        if meth in ("rstrip", "strip") and len(args) <= 1:
+            if not args:
+                cs = RL.category_set("CATEGORY_SPACE", False)
+            elif isinstance(args[0], ast.Constant) and isinstance(args[0].value, str):
+                cs = CharSet.of(args[0].value)
+            else:
+                return self.sub_any(x, stmt)
+            self.site("tail_cleaners", e)
+            return self.derived(S(x.may, x.may - cs, False, x.ub, None), stmt, [x], "tail", "tail-cleaner")
+        if meth == "replace" and len(args) == 2 and all(isinstance(a, ast.Constant) and isinstance(a.value, str) for a in args) and len(args[0].value) == 1:
+            return self.char_sub(x, CharSet.of(args[0].value), const_str(args[1].value), stmt)
+        if meth in ("lower", "upper", "casefold", "title", "swapcase", "capitalize"):
+            return self.derived(S(FULL if x.may != CharSet.EMPTY else x.may, FULL, x.nonempty, None, None), stmt, [x], None)
+        if meth == "lstrip":
+            return self.derived(S(x.may, x.last, False, x.ub, None), stmt, [x], None)
+        if meth in ("startswith", "endswith", "isdigit", "isalpha"):
+            return Top("bool")
+        return self.derived(S(), stmt, [x], None)
 
     def sub_any(self, x, stmt):
         return self.derived(S(x.may, x.may, False, x.ub, self.fresh_exact("len(part)", x.ub, stmt)), stmt, [x], None)
@@ -585,15 +792,18 @@ class Interp:
         self.site("splits", stmt)
         head = S(x.may, x.may, False, x.ub, self.fresh_exact("len(head)", x.ub, stmt))
         if right:
-            # tail = what follows the last separator: empty iff x ends with it; it contains no separator
             t_may = x.may if keep_sep_in_last else (x.may - sep)
             t_last = x.last if keep_sep_in_last else (x.last - sep)
             t_nonempty = not (x.last & sep) if not keep_sep_in_last else False
-            tail = S(t_may, t_last, t_nonempty, x.ub, None)
+            tail = S(t_may, t_last, t_nonempty and x.nonempty or (t_nonempty and not keep_sep_in_last), x.ub, None)
         else:
             tail = S(x.may, x.last, False, x.ub, None)
         tail = dc_replace(tail, exact=self.fresh_exact("len(ext)" if right else "len(rest)", x.ub, stmt))
-        return Tup((self.derived(head, stmt, [x], None), self.derived(tail, stmt, [x], None)))
+        return Tup((self.derived(head, stmt, [x], None, "split"), self.derived(tail, stmt, [x], None, "split")))
+
+    def keeps_len(self, r):
+        m = mx_max(r.ub, self.atoms) if r.ub is not None else None
+        return m is not None and m <= 1
 
     def char_sub(self, x, cs, r, stmt):
         """every character of cs in x is replaced by r"""
@@ -605,19 +815,16 @@ class Interp:
             last = (x.last - cs) | r.last
         else:
             last = may
-        keeps_len = r.ub is not None and mx_max(r.ub, self.atoms) is not None and mx_max(r.ub, self.atoms) <= 1
-        nonempty = x.nonempty and r.nonempty
-        return self.derived(S(may, last, nonempty, x.ub if keeps_len else None, x.exact if (keeps_len and r.nonempty) else None), stmt, [x], "chars")
+        k = self.keeps_len(r)
+        return self.derived(S(may, last, x.nonempty and r.nonempty, x.ub if k else None, x.exact if (k and r.nonempty) else None), stmt, [x], "chars", "char-cleaner")
 
-    def re_sub(self, e, st, stmt):
-        args = e.args
-        x = self.ev(args[2], st, stmt)
-        r = self.ev(args[1], st, stmt)
+    def re_sub(self, e, rx, rargs, haskw, st, stmt):
+        x = self.ev(rargs[1], st, stmt)
+        r = self.ev(rargs[0], st, stmt)
         if not isinstance(x, S):
             return self.as_str(x)
-        if not isinstance(r, S) or len(args) > 3 or e.keywords:
+        if not isinstance(r, S) or len(rargs) > 2 or haskw:
             return self.derived(S(), stmt, [x], None)
-        rx = self.regex_of(args[0], st)
         if rx is None:
             return self.derived(S(FULL, FULL, False, None, None), stmt, [x], None)
         try:
@@ -630,7 +837,7 @@ class Interp:
             return self.char_sub(x, cs, r, stmt)
         if tc is not None:
             self.site("tail_cleaners", e)
-            tset, kind = tc
+            tset, _kind = tc
             may = x.may | (r.may if (x.may & tset) else CharSet.EMPTY)
             if not (x.last & tset):
                 last = x.last
@@ -638,10 +845,8 @@ class Interp:
                 last = (x.last - tset) | r.last
             else:
                 last = may
-            keeps_len = r.ub is not None and mx_max(r.ub, self.atoms) is not None and mx_max(r.ub, self.atoms) <= 1
-            return self.derived(S(may, last, x.nonempty and r.nonempty, x.ub if keeps_len else None,
-                                  x.exact if (keeps_len and r.nonempty) else None), stmt, [x], "tail")
-        # some other substitution: result may contain anything of x and r, any length
+            k = self.keeps_len(r)
+            return self.derived(S(may, last, x.nonempty and r.nonempty, x.ub if k else None, x.exact if (k and r.nonempty) else None), stmt, [x], "tail", "tail-cleaner")
         return self.derived(S(x.may | r.may, x.may | r.may, False, None, None), stmt, [x], None)
 
     # ---- statements ----------------------------------------------------------
@@ -651,10 +856,6 @@ class Interp:
         st.env[name] = val
         if name in st.falsy:
             st.falsy = st.falsy - {name}
-        dead = {p for p in st.notexist if name in p}
-        if dead:
-            st.notexist = st.notexist - dead
-            st.killed_by = stmt
 
     def block(self, stmts, states):
         for s in stmts:
@@ -670,9 +871,21 @@ class Interp:
             if k not in seen:
                 seen.add(k)
                 out.append(s)
-        if len(out) > 600:
-            _err("more than 600 abstract path states (outside the fragment)")
+        if len(out) > 3000:
+            _err("more than 3000 abstract path states (outside the fragment)")
         return out
+
+    def bind_target(self, st, target, v, stmt):
+        if isinstance(target, ast.Name):
+            self.assign(st, target.id, v, stmt)
+        elif isinstance(target, (ast.Tuple, ast.List)) and all(isinstance(x, ast.Name) for x in target.elts):
+            items = v.items if isinstance(v, Tup) and len(v.items) == len(target.elts) else [Top("unpack")] * len(target.elts)
+            if isinstance(v, Top) and v.what.startswith("call "):
+                items = [v] * len(target.elts)
+            for x, iv in zip(target.elts, items):
+                self.assign(st, x.id, iv, stmt)
+        else:
+            _err("assignment target %s is outside the fragment" % norm(target))
 
     def stmt(self, s, states):
         if isinstance(s, ast.Expr):
@@ -683,24 +896,20 @@ class Interp:
             if isinstance(s, ast.AnnAssign) and s.value is None:
                 return states
             for st in states:
-                st = st.copy()
-                v = self.ev(s.value, st, s)
-                for t in targets:
-                    if isinstance(t, ast.Name):
-                        self.assign(st, t.id, v, s)
-                    elif isinstance(t, (ast.Tuple, ast.List)) and all(isinstance(x, ast.Name) for x in t.elts):
-                        items = v.items if isinstance(v, Tup) and len(v.items) == len(t.elts) else [Top("unpack")] * len(t.elts)
-                        for x, iv in zip(t.elts, items):
-                            self.assign(st, x.id, iv, s)
-                    else:
-                        _err("assignment target %s is outside the fragment" % norm(t))
-                out.append(st)
+                self.atoms.ctx = dict(st.bounds)
+                v = self.evf(s.value, st, s)
+                for alt in (v.alts if isinstance(v, Fork) else (v,)):
+                    st2 = st.copy()
+                    for t in targets:
+                        self.bind_target(st2, t, alt, s)
+                    out.append(st2)
             return self.dedupe(out)
         if isinstance(s, ast.AugAssign):
             if not isinstance(s.target, ast.Name):
                 _err("augmented assignment to %s is outside the fragment" % norm(s.target))
             out = []
             for st in states:
+                self.atoms.ctx = dict(st.bounds)
                 st = st.copy()
                 fake = ast.BinOp(left=ast.Name(id=s.target.id, ctx=ast.Load()), op=s.op, right=s.value)
                 self.assign(st, s.target.id, self.ev(fake, st, s), s)
@@ -713,26 +922,104 @@ class Interp:
                 t_states += a
                 f_states += b
             return self.dedupe(self.block(s.body, self.dedupe(t_states)) + self.block(s.orelse, self.dedupe(f_states)))
-        if isinstance(s, ast.While):
+        if isinstance(s, (ast.While, ast.For)):
             return self.loop(s, states)
         if isinstance(s, ast.Return):
+            fr = self.frames[-1]
             for st in states:
-                self.returns.append((st, s, self.ev(s.value, st, s) if s.value is not None else Top("None")))
+                self.atoms.ctx = dict(st.bounds)
+                v = self.evf(s.value, st, s) if s.value is not None else Top("None")
+                for alt in (v.alts if isinstance(v, Fork) else (v,)):
+                    fr.returns.append((st, s, alt))
+            return []
+        if isinstance(s, ast.Break):
+            if not self.frames[-1].loops:
+                _err("break outside a loop")
+            self.frames[-1].loops[-1]["breaks"] += states
+            return []
+        if isinstance(s, ast.Continue):
+            if not self.frames[-1].loops:
+                _err("continue outside a loop")
+            self.frames[-1].loops[-1]["continues"] += states
             return []
         if isinstance(s, ast.Raise):
             return []
-        if isinstance(s, ast.Pass):
-            return states
-        if isinstance(s, (ast.Import, ast.ImportFrom)):
+        if isinstance(s, (ast.Pass, ast.Import, ast.ImportFrom)):
             return states
         _err("statement `%s` is outside the analysable fragment" % norm(s)[:60])
 
+    # ---- conditions ------------------------------------------------------------
+    def probe_of(self, test):
+        """[not] os.path.isfile|exists(os.path.join(d, n)) -> ('present'|'absent', d expr, n expr)"""
+        neg = False
+        while isinstance(test, ast.UnaryOp) and isinstance(test.op, ast.Not):
+            neg = not neg
+            test = test.operand
+        if isinstance(test, ast.Call) and dotted(test.func) in PROBES and len(test.args) == 1:
+            j = test.args[0]
+            if isinstance(j, ast.Call) and dotted(j.func) == "os.path.join" and len(j.args) == 2:
+                return ("absent" if neg else "present", j.args[0], j.args[1])
+        return None
+
+    def refine_int(self, st, d, op):
+        """d <op> 0 holds on this path; d = c + k*a with a single atom: tighten the upper bound of a"""
+        if d is None or len(d) != 1:
+            return
+        c, terms = next(iter(d))
+        if len(terms) != 1:
+            return
+        a, k = terms[0]
+        hi = None
+        # k*a <op> -c
+        if op == ">" and k < 0:      # a < c/|k|
+            hi = (c // (-k)) - (1 if c % (-k) == 0 else 0)
+        elif op == ">=" and k < 0:   # a <= c/|k|
+            hi = c // (-k)
+        elif op == "<" and k > 0:    # a < -c/k
+            hi = ((-c) // k) - (1 if (-c) % k == 0 else 0)
+        elif op == "<=" and k > 0:
+            hi = (-c) // k
+        if hi is None:
+            return
+        b = dict(st.bounds)
+        cur = self.atoms.hi[a]
+        if b.get(a) is not None:
+            cur = b[a] if cur is None else min(cur, b[a])
+        if cur is None or hi < cur:
+            b[a] = hi
+            st.bounds = tuple(sorted(b.items()))
+
     def branch(self, test, st, stmt):
         """-> (states on true, states on false)"""
+        self.atoms.ctx = dict(st.bounds)
         if isinstance(test, ast.UnaryOp) and isinstance(test.op, ast.Not):
             a, b = self.branch(test.operand, st, stmt)
             return b, a
+        if isinstance(test, ast.BoolOp):
+            first, rest = test.values[0], test.values[1:]
+            rest_e = rest[0] if len(rest) == 1 else ast.BoolOp(op=test.op, values=rest)
+            ta, fa = self.branch(first, st, stmt)
+            if isinstance(test.op, ast.And):
+                t, f = [], list(fa)
+                for s2 in ta:
+                    tb, fb = self.branch(rest_e, s2, stmt)
+                    t += tb
+                    f += fb
+                return t, f
+            t, f = list(ta), []
+            for s2 in fa:
+                tb, fb = self.branch(rest_e, s2, stmt)
+                t += tb
+                f += fb
+            return t, f
         if isinstance(test, ast.Name):
+            v = st.env.get(test.id)
+            if isinstance(v, S):
+                if v.exact == ZERO:
+                    return [], [st.copy()]
+                if v.nonempty:
+                    return [st.copy()], []
+                return [st.copy()], [st.copy()]
             if test.id in st.falsy:
                 return [], [st]
             f = st.copy()
@@ -740,15 +1027,26 @@ class Interp:
             return [st.copy()], [f]
         if isinstance(test, ast.Constant):
             return ([st], []) if test.value else ([], [st])
-        # re.match(P, x) guard on a one-character string: the false branch knows x is outside the class
-        if isinstance(test, ast.Call) and dotted(test.func) in ("re.match", "re.search", "re.fullmatch") and len(test.args) == 2 \
-                and isinstance(test.args[1], ast.Name):
-            x = st.env.get(test.args[1].id)
-            rx = self.regex_of(test.args[0], st)
-            one = frozenset([(1, ())])
-            if isinstance(x, S) and x.exact == one and rx is not None:
+        if isinstance(test, ast.Compare) and len(test.ops) == 1 and isinstance(test.ops[0], (ast.Is, ast.IsNot)) \
+                and isinstance(test.comparators[0], ast.Constant) and test.comparators[0].value is None and isinstance(test.left, ast.Call):
+            a, b = self.branch(test.left, st, stmt)   # a match object is truthy, None is falsy
+            return (b, a) if isinstance(test.ops[0], ast.Is) else (a, b)
+        # existence probe: the false branch of isfile(join(d, n)) knows that join(d, n) is not an existing file
+        p = self.probe_of(test)
+        if p:
+            _kind, d_e, n_e = p
+            self.site("uniq_loops", test)
+            t, f = st.copy(), st.copy()
+            if isinstance(n_e, ast.Name) and isinstance(st.env.get(n_e.id), S):
+                f.env[n_e.id] = dc_replace(st.env[n_e.id], fresh=self.ev(d_e, st, stmt))
+            return [t], [f]
+        # regex guard on a one-character string: the false branch knows the string is outside the class
+        rc = self.regex_call(test) if isinstance(test, ast.Call) else None
+        if rc is not None and rc[1] in ("match", "search", "fullmatch") and len(rc[2]) == 1 and not rc[3] and isinstance(rc[2][0], ast.Name):
+            rx, _op, rargs, _kw = rc
+            x = st.env.get(rargs[0].id)
+            if isinstance(x, S) and x.exact == ONE and rx is not None:
                 try:
-                    # on a one-character subject leading ^/\\A and trailing $/\\Z change nothing
                     items = rx.top_items()
                     while items and str(items[0][0]) == "AT" and "BEGINNING" in str(items[0][1]):
                         items = items[1:]
@@ -760,125 +1058,155 @@ class Interp:
                 if cs is not None:
                     self.site("guards", test)
                     f = st.copy()
-                    f.env[test.args[1].id] = dc_replace(x, may=x.may - cs, last=x.last - cs)
+                    f.env[rargs[0].id] = dc_replace(x, may=x.may - cs, last=x.last - cs)
                     return [st.copy()], [f]
             return [st.copy()], [st.copy()]
-        # len(x) <op> N
         if isinstance(test, ast.Compare) and len(test.ops) == 1:
             l, r = test.left, test.comparators[0]
             op = type(test.ops[0])
             flip = {ast.Gt: ast.Lt, ast.Lt: ast.Gt, ast.GtE: ast.LtE, ast.LtE: ast.GtE}
-            if not (isinstance(l, ast.Call) and dotted(l.func) == "len") and isinstance(r, ast.Call) and dotted(r.func) == "len" and op in flip:
-                l, r, op = r, l, flip[op]
-            if isinstance(l, ast.Call) and dotted(l.func) == "len" and len(l.args) == 1 and isinstance(l.args[0], ast.Name) and op in flip:
-                name = l.args[0].id
-                x = st.env.get(name)
-                n = self.ev(r, st, stmt)
-                if isinstance(x, S) and isinstance(n, I) and n.val is not None:
-                    self.site("refinements", test)
-                    t, f = st.copy(), st.copy()
+            if op in flip:
+                if not (isinstance(l, ast.Call) and dotted(l.func) == "len") and isinstance(r, ast.Call) and dotted(r.func) == "len":
+                    l, r, op = r, l, flip[op]
+                t, f = st.copy(), st.copy()
+                done = False
+                # len(x) <op> N : bound of the variable itself
+                if isinstance(l, ast.Call) and dotted(l.func) == "len" and len(l.args) == 1 and isinstance(l.args[0], ast.Name):
+                    name = l.args[0].id
+                    x = st.env.get(name)
+                    n = self.ev(r, st, stmt)
+                    if isinstance(x, S) and isinstance(n, I) and n.val is not None:
+                        self.site("refinements", test)
+                        done = True
 
-                    def bounded(state, bound):
-                        cur = state.env[name]
-                        a, b = mx_max(bound, self.atoms), (mx_max(cur.ub, self.atoms) if cur.ub is not None else None)
-                        if cur.ub is None or b is None or (a is not None and a < b):
-                            new = dc_replace(cur, ub=bound)
-                            new = self.derived(new, stmt, [cur], "len")
-                            state.env[name] = new
-                            # aliases of the same value (origname = fname) are not refined: sound, merely less precise
-                    minus1 = mx_add(n.val, frozenset([(1, ())]), -1)
-                    if op is ast.Gt:      # false: len <= N
-                        bounded(f, n.val)
-                    elif op is ast.GtE and minus1 is not None:  # false: len <= N-1
-                        bounded(f, minus1)
-                    elif op is ast.LtE:   # true: len <= N
-                        bounded(t, n.val)
-                    elif op is ast.Lt and minus1 is not None:
-                        bounded(t, minus1)
+                        def bounded(state, bound):
+                            cur = state.env[name]
+                            a, b = mx_max(bound, self.atoms), (mx_max(cur.ub, self.atoms) if cur.ub is not None else None)
+                            if cur.ub is None or b is None or (a is not None and a < b):
+                                fresh = cur.fresh
+                                new = self.derived(dc_replace(cur, ub=bound), stmt, [cur], "len", "refine")
+                                state.env[name] = dc_replace(new, fresh=fresh)
+                        minus1 = mx_add(n.val, ONE, -1)
+                        if op is ast.Gt:
+                            bounded(f, n.val)
+                        elif op is ast.GtE and minus1 is not None:
+                            bounded(f, minus1)
+                        elif op is ast.LtE:
+                            bounded(t, n.val)
+                        elif op is ast.Lt and minus1 is not None:
+                            bounded(t, minus1)
+                # general linear comparison of two ints: tighten the symbolic length it mentions
+                lv, rv = self.ev(l, st, stmt), self.ev(r, st, stmt)
+                if isinstance(lv, I) and isinstance(rv, I) and lv.val is not None and rv.val is not None and len(lv.val) == 1 and len(rv.val) == 1:
+                    d = mx_add(lv.val, rv.val, -1)
+                    neg = mx_add(rv.val, lv.val, -1)
+                    sym = {ast.Gt: (">", "<="), ast.GtE: (">=", "<"), ast.Lt: ("<", ">="), ast.LtE: ("<=", ">")}[op]
+                    self.refine_int(t, d, sym[0])
+                    self.refine_int(f, d, sym[1])
+                    # the mirrored form catches atoms with the opposite sign
+                    mir = {">": "<", ">=": "<=", "<": ">", "<=": ">="}
+                    self.refine_int(t, neg, mir[sym[0]])
+                    self.refine_int(f, neg, mir[sym[1]])
+                    done = True
+                if done:
                     return [t], [f]
         return [st.copy()], [st.copy()]
 
-    def uniq_test(self, test):
-        """os.path.isfile/exists/lexists(os.path.join(d, n)) -> (d, n)"""
-        if isinstance(test, ast.Call) and dotted(test.func) in ("os.path.isfile", "os.path.exists", "os.path.lexists") and len(test.args) == 1:
-            j = test.args[0]
-            if isinstance(j, ast.Call) and dotted(j.func) == "os.path.join" and len(j.args) == 2 and all(isinstance(a, ast.Name) for a in j.args):
-                return (j.args[0].id, j.args[1].id)
-        return None
-
+    # ---- loops -------------------------------------------------------------------
     def loop(self, s, states):
-        if s.orelse:
-            _err("while/else is outside the fragment")
-        for n in walk_no_nested(s):
-            if isinstance(n, (ast.Break, ast.Continue)):
-                _err("break/continue inside the loop is outside the fragment")
-        pair = self.uniq_test(s.test)
-        if pair:
-            self.site("uniq_loops", s)
+        is_for = isinstance(s, ast.For)
+        ctxt = dict(breaks=[], continues=[])
+        self.frames[-1].loops.append(ctxt)
         head = self.dedupe(states)
         seen = {st.key() for st in head}
         frontier = head
+        infinite = False
         self.in_loop += 1
-        for _ in range(8):
-            t_states = []
-            for st in frontier:
-                a, _b = self.branch(s.test, st, s) if not pair else ([st.copy()], None)
-                t_states += a
-            after = self.block(s.body, self.dedupe(t_states))
-            new = []
-            for st in after:
-                k = st.key()
-                if k not in seen:
-                    seen.add(k)
-                    new.append(st)
-            head += new
-            frontier = new
-            if not new:
-                break
-        else:
-            _err("loop `while %s` does not stabilise in the abstract domain" % norm(s.test))
-        self.in_loop -= 1
-        out = []
-        for st in head:
-            if pair:
-                e = st.copy()
-                e.notexist = e.notexist | {pair}
-                e.killed_by = None
-                out.append(e)
+        try:
+            for _ in range(10):
+                t_states = []
+                for st in frontier:
+                    self.atoms.ctx = dict(st.bounds)
+                    if is_for:
+                        it = self.ev(s.iter, st, s)
+                        if isinstance(it, Tup):
+                            it = Seq(it.items)
+                        if isinstance(it, Seq):
+                            infinite = it.infinite
+                            for el in it.elems:
+                                st2 = st.copy()
+                                self.bind_target(st2, s.target, el, s)
+                                t_states.append(st2)
+                        elif isinstance(it, Top) and it.what.startswith("call "):
+                            _err("the loop iterates over the result of `%s(...)`, which this analysis cannot interpret" % it.what[5:])
+                        else:
+                            st2 = st.copy()
+                            self.bind_target(st2, s.target, Top("element"), s)
+                            t_states.append(st2)
+                    else:
+                        a, _b = self.branch(s.test, st, s)
+                        t_states += a
+                after = self.block(s.body, self.dedupe(t_states)) + ctxt["continues"]
+                ctxt["continues"] = []
+                new = []
+                for st in after:
+                    k = st.key()
+                    if k not in seen:
+                        seen.add(k)
+                        new.append(st)
+                head += new
+                frontier = new
+                if not new:
+                    break
             else:
-                _a, b = self.branch(s.test, st, s)
-                out += b
-        return self.dedupe(out)
+                _err("loop `%s` does not stabilise in the abstract domain" % norm(s.test if not is_for else s.iter))
+        finally:
+            self.in_loop -= 1
+            self.frames[-1].loops.pop()
+        out = []
+        if is_for:
+            if not infinite:
+                out += [st.copy() for st in head]
+        else:
+            const_true = isinstance(s.test, ast.Constant) and bool(s.test.value)
+            if not const_true:
+                for st in head:
+                    _a, b = self.branch(s.test, st, s)
+                    out += b
+        out = self.block(s.orelse, self.dedupe(out)) if s.orelse else out
+        return self.dedupe(out + ctxt["breaks"])
 
 
 # ---------------------------------------------------------------------------
-def analyse(fnode, sink, helpers=None):
+def analyse(fnode, sink, module=None):
     """run the interpreter and report the five facts"""
-    it = Interp(fnode, sink, helpers)
+    it = Interp(fnode, sink, module)
     for n in fnode.body:
         if isinstance(n, (ast.FunctionDef, ast.AsyncFunctionDef, ast.ClassDef)):
             _err("nested definitions are outside the fragment")
     rest = it.block(fnode.body, [it.initial()])
+    returns = list(it.frames[0].returns)
     if rest:
-        it.returns += [(st, fnode, Top("None")) for st in rest]
-    if not it.returns:
+        returns += [(st, fnode, Top("None")) for st in rest]
+    if not returns:
         _err("no return statement reached")
     notes = {id(s): w for s, w in it.notes}
     failures = {f: {} for f in FACTS}   # fact -> construct -> (node, message)
     npaths = 0
-    for st, rnode, val in it.returns:
+    for st, rnode, val in returns:
         npaths += 1
+        it.atoms.ctx = dict(st.bounds)
         if isinstance(val, S) and not isinstance(rnode, ast.FunctionDef):
-            # a bare name is returned: every fact about the directory is lost
-            failures["dir"].setdefault(norm(rnode), (rnode, "the function returns %s, not os.path.join(<directory of the input>, <name>)" % norm(rnode.value)))
-            name, dvar, nvar, dval = val, None, None, None
+            failures["dir"].setdefault(canon(rnode, fnode), (rnode, "the function returns %s, not os.path.join(<directory of the input>, <name>)" % norm(rnode.value)))
+            name, dval = val, None
         elif isinstance(val, JoinV) and isinstance(val.name, S):
-            name, dvar, nvar, dval = val.name, val.dvar, val.nvar, val.d
-            ok_dir = isinstance(dval, PathDir) and not (name.may & SEPS)
-            if not ok_dir:
-                why = ("the directory argument is not the directory part of the input path" if not isinstance(dval, PathDir)
-                       else "the name can contain a path separator, so the result can leave the input's directory")
-                failures["dir"].setdefault(norm(rnode), (rnode, "`%s`: %s" % (norm(rnode), why)))
+            name, dval = val.name, val.d
+            if not isinstance(dval, PathDir):
+                if isinstance(dval, Top) and dval.what.startswith("call ") and not dval.what.startswith("call os.path"):
+                    _err("the directory argument of `%s` comes from `%s(...)`, which this analysis cannot interpret" % (norm(rnode)[:80], dval.what[5:]))
+                failures["dir"].setdefault(canon(rnode, fnode), (rnode, "`%s`: the directory argument is not the directory part of the input path" % norm(rnode)))
+            elif name.may & SEPS:
+                failures["dir"].setdefault(canon(rnode, fnode), (rnode, "`%s`: the name can contain a path separator, so the result can leave the input's directory" % norm(rnode)))
         else:
             inner = val.name if isinstance(val, JoinV) else val
             if isinstance(inner, Top) and inner.what.startswith("call "):
@@ -888,30 +1216,40 @@ def analyse(fnode, sink, helpers=None):
         for fact in ("chars", "tail", "len"):
             if f[fact]:
                 continue
-            node, attempt_only = _blame(name, fact, rnode)
+            node, attempt_only, owner, kind = _blame(name, fact, rnode, fnode)
             msg = _message(fact, name, node, attempt_only, it, notes)
-            failures[fact].setdefault(norm(node), (node, msg))
-        if not ("unique" in st.falsy or (dvar, nvar) in st.notexist):
-            node = st.killed_by if st.killed_by is not None else rnode
-            msg = ("`%s` changes the name after the last `isfile` test, the returned path was never tested" % norm(node)
-                   if st.killed_by is not None else
-                   "with unique=True the returned path is not tested against existing files (no `while os.path.isfile(os.path.join(dir, name))` exit precedes the return)")
-            failures["unique"].setdefault(norm(node), (node, msg))
+            failures[fact].setdefault(_construct(node, owner, kind, fact, attempt_only), (node, msg))
+        if not ("unique" in st.falsy or (dval is not None and name.fresh is not None and name.fresh == dval)):
+            if name.hist:
+                node, owner = name.hist[-1][0], name.hist[-1][3]
+                msg = ("`%s` produces the returned name and no `os.path.isfile` test of the result follows it -- with unique=True the returned path "
+                       "was never tested against existing files" % norm(node))
+            else:
+                node, owner = rnode, fnode
+                msg = "with unique=True the returned path is not tested against existing files"
+            failures["unique"].setdefault(canon(node, owner) if not isinstance(node, ast.FunctionDef) else "return", (node, msg))
     return it, failures, npaths
 
 
-def _blame(v: S, fact, rnode):
+def _blame(v: S, fact, rnode, fnode):
     h = v.hist
     i = len(h) - 1
     while i >= 0 and not h[i][1][fact]:
         i -= 1
     if i >= 0 and i + 1 < len(h):
-        return h[i + 1][0], False
+        return h[i + 1][0], False, h[i + 1][3], h[i + 1][4]
     # never established on this path: blame the first statement that tries to establish it
-    for stmt, facts, att in h:
+    for stmt, facts, att, owner, kind in h:
         if fact in att:
-            return stmt, True
-    return rnode, True
+            return stmt, True, owner, kind
+    return rnode, True, fnode, "other"
+
+
+def _construct(node, owner, kind, fact, attempt_only):
+    """finding key: the meaning of the offending step where it has one, else the rename-proof statement text"""
+    if kind == "append-counter" and fact == "len" and not attempt_only:
+        return "<name cut to the limit> + str(<counter>) [+ extension]"
+    return canon(node, owner) if not isinstance(node, ast.FunctionDef) else "return"
 
 
 def _message(fact, v, node, attempt_only, it, notes):
@@ -928,7 +1266,8 @@ def _message(fact, v, node, attempt_only, it, notes):
             return "`%s` does not guarantee that the name does not end with %s" % (src, bad.describe())
         return "`%s` runs after the trailing space/dot was cleaned and can expose %s as the last character again" % (src, bad.describe())
     if fact == "len":
-        bound = "unbounded" if v.ub is None or mx_max(v.ub, it.atoms) is None else "<= %s" % mx_max(v.ub, it.atoms)
+        m = mx_max(v.ub, it.atoms) if v.ub is not None else None
+        bound = "unbounded" if m is None else "<= %s" % m
         if extra:
             return "`%s`: %s (returned length %s, limit %d)" % (src, extra, bound, MAXLEN)
         if attempt_only:
@@ -982,15 +1321,15 @@ class Sink:
             self.ctx.check(rule, instance, ok, self.func, construct, message, node=node, detail=detail)
 
 
-def core(sink, fnode, helpers=None):
-    it, failures, npaths = analyse(fnode, sink, helpers)
+def core(sink, fnode, module=None):
+    it, failures, npaths = analyse(fnode, sink, module)
     for fact in FACTS:
         bad = failures[fact]
         if not bad:
             sink.check("fact/" + fact, "%s holds at every return" % fact, True, "return", "",
                        detail="%s established on all %d abstract return paths" % (fact, npaths))
         for construct, (node, msg) in bad.items():
-            sink.check("fact/" + fact, "%s: %s" % (fact, construct[:60]), False, canon(node, fnode) if not isinstance(node, ast.FunctionDef) else "return", msg, node=node)
+            sink.check("fact/" + fact, "%s: %s" % (fact, construct[:60]), False, construct, msg, node=node)
     return it, failures, npaths
 
 
@@ -1002,7 +1341,7 @@ def run(ctx):
     ctx.analysed(f)
     ctx.require(m.imports.get("re") == ("re", None) and m.imports.get("os") == ("os", None), "`re`/`os` are not the standard modules in misc.py")
     sink = Sink(ctx, f)
-    helpers = {k: v.node for k, v in m.functions.items() if "." not in k and k != f.name}
+    helpers = dict(funcs={k: v.node for k, v in m.functions.items() if "." not in k and k != f.name}, consts=dict(m.assigns))
     it, failures, npaths = core(sink, f.node, helpers)
     for k, v in it.stats.items():
         ctx.count(k, v)
